@@ -2,7 +2,7 @@
     Property theorems only, about the per-window methods REGENERATED from the source (Gen/GenScalars.v;
     translation validated by correspondence K5).  [eql] = elementwise equality of rationals. *)
 From Coq Require Import QArith Qabs List Bool String.
-From IV Require Import QL Dist Ecdf QListFacts GenUtils GenScalars RatLS C16_compose C03_proofs C02_proofs C04_proofs C01_proofs C09_proofs RatLS_proofs Affine Affine_debiasers Driver Driver_rel ApplyLocation_units SDM SDM_proofs.
+From IV Require Import QL Dist Ecdf QListFacts GenUtils GenScalars RatLS C16_compose C03_proofs C02_proofs C04_proofs C01_proofs C09_proofs RatLS_proofs Affine Affine_debiasers Driver Driver_rel ApplyLocation_units ApplyLocation_param SDM SDM_proofs IsimipStep5 IsimipStep5_proofs.
 Import ListNotations.
 Open Scope Q_scope.
 
@@ -132,3 +132,36 @@ Theorem C02_sdm_absolute_trend_preserving : forall (P : Type) (D : dist P) (scal
   Forall2 (fun u v => v == u + c) (sdm_absolute D scale_of obs hist fut) (sdm_absolute D scale_of obs hist (map (fun x => x + c) fut)).
 Proof. exact @sdm_absolute_trend_preserving. Qed.
 Print Assumptions C02_sdm_absolute_trend_preserving.
+
+Theorem C02_delta_change_apply_location : forall c L S dobs dhist dfut obs hist fut,
+  Driver_rel.windows_nonempty L S dobs dobs dhist dfut obs hist fut ->
+  ApplyLocation_units.same_in_other_unit 1 c (Driver.driver_dc Q L S dobs dhist dfut obs hist fut (ApplyLocation_units.W_dc "additive"))
+                                             (Driver.driver_dc Q L S dobs dhist dfut obs hist (map (fun x => x + c) fut) (ApplyLocation_units.W_dc "additive")).
+Proof. exact ApplyLocation_units.dc_trend_preserved_through_windows. Qed.
+Print Assumptions C02_delta_change_apply_location.
+
+(** ECDFM and additively detrended parametric QuantileMapping through apply_location: for any distribution whose fit
+    follows a shift of the sample (and respects ==) on the admissible samples; satisfiable by the rational family
+    (C04_fit_unit_change_satisfiable with a = 1) *)
+Theorem C02_ecdfm_apply_location : forall (P : Type) (D : dist P) c good,
+  fit_unit_change D 1 c good -> fit_unit_change D 1 0 good ->
+  forall thr L S dobs dhist dfut obs hist fut, Driver_rel.windows_ok good good good L S dfut dobs dhist dfut obs hist fut ->
+  ApplyLocation_units.same_in_other_unit 1 c (Driver.driver_rw Q L S dobs dhist dfut obs hist fut (W_ecdfm D thr))
+                                             (Driver.driver_rw Q L S dobs dhist dfut obs hist (map (fun x => x + c) fut) (W_ecdfm D thr)).
+Proof. intros P D c good H1 H0. exact (ecdfm_trend_preserved_through_windows D c good H1 H0). Qed.
+Print Assumptions C02_ecdfm_apply_location.
+
+Theorem C02_qm_parametric_detrended_apply_location : forall (P : Type) (D : dist P) c good,
+  fit_unit_change D 1 0 good -> (forall l, good l -> l <> []) ->
+  forall thr L S dobs dhist dfut obs hist fut, Driver_rel.windows_ok good good good L S dfut dobs dhist dfut obs hist fut ->
+  ApplyLocation_units.same_in_other_unit 1 c (Driver.driver_rw Q L S dobs dhist dfut obs hist fut (W_qm_param_detrended D thr))
+                                             (Driver.driver_rw Q L S dobs dhist dfut obs hist (map (fun x => x + c) fut) (W_qm_param_detrended D thr)).
+Proof. intros P D c good H0 Hn. exact (qm_param_detrended_trend_preserved_through_windows D c good H0 Hn). Qed.
+Print Assumptions C02_qm_parametric_detrended_apply_location.
+
+(** ISIMIP step 5, additive trend preservation (hand model, K17): a constant added to cm_future is added to every
+    pseudo future observation, for both modelled ECDFs and all nine inverse-CDF methods *)
+Theorem C02_isimip_step5_additive : forall em im a b c oh ch cf, em = step_function \/ em = linear_interpolation -> oh <> [] -> cf <> [] ->
+  Affine.ARL 1 c (step5 TAdditive em im a b oh ch cf) (step5 TAdditive em im a b oh ch (map (fun x => x + c) cf)).
+Proof. exact step5_additive_trend. Qed.
+Print Assumptions C02_isimip_step5_additive.
